@@ -231,6 +231,31 @@ def normV : FTy → FVal → FVal
     if F64.isNaN x then .oreal none else if x = F64.negZero then .oreal (some F64.zero) else .oreal (some x)
   | _, v => v
 
+/-! ## what a column may hold on reachable states -/
+
+/-- The values the column of a member of declared type `ty` holds after any
+history of API calls (and triggers): the storage class the binding layer writes
+for that type, a timestamp within the range `to_time_point` can convert back
+(|ts| ≤ 9223372036 s), a blob of the member's own kind.  NULL is what an absent
+optional, a never-written column of an older schema, `set_date_*(nullopt)` and
+an unset `Information.uuid` leave; every non-blob type reads it as its zero value. -/
+def colTyped : FTy → Val → Bool
+  | .blob k, .blob v => decide (v.kind = k) && v.encodable
+  | .blob _, _ => false
+  | .timeText, .ft sec _ => in64 (sec * 1000000000)
+  | .timeText, _ => false
+  | _, .null => true
+  | .i64, .int _ => true
+  | .oi64, .int _ => true
+  | .oi32, .int i => in32 i
+  | .bool, .int i => i == 0 || i == 1
+  | .str, .text _ => true
+  | .ostr, .text _ => true
+  | .odbl, .real x => !F64.isNaN x
+  | .time, .int ts => in64 (ts * 1000000000)
+  | .otime, .int ts => in64 (ts * 1000000000)
+  | _, _ => false
+
 /-! ## binding tables -/
 
 /-- What is bound to a `?`: a row member through a conversion, or a constant
